@@ -80,6 +80,17 @@ def generate(tier, rng):
         else:
             v = [rng.choice([0.0, 0.0, rng.uniform(75, 400)]) for _ in range(n)]
         cases.append({"op": "stats", "dist": v, "w": rng.choice([None, None, 3, 4, 5]), "zero": rng.random() < 0.5, "scale": ["float", 0]})
+    # z-normalisation within a sliding window, and of one column of a table of rows
+    for _ in range(300 if tier == "quick" else 8000):
+        n = rng.randint(0, 12)
+        v = [float(rng.choice([0, 0, rng.randint(1, 40)])) if rng.random() < 0.5 else float(rng.randint(1, 60)) for _ in range(n)]
+        cases.append({"op": "znwin", "dist": v, "w": rng.randint(0, 7), "pad": rng.random() < 0.5, "zero": rng.random() < 0.4,
+                      "scale": ["float", 0]})
+    for _ in range(200 if tier == "quick" else 5000):
+        n = rng.randint(2, 9)
+        rows = [[float(k), float(rng.randint(-6, 30)), float(rng.randint(0, 9))] for k in range(n)]
+        cases.append({"op": "znspk", "rows": rows, "index": rng.choice([1, 2]), "zero": rng.random() < 0.4, "dist": rows,
+                      "scale": ["float", 0]})
     return cases
 
 
@@ -141,6 +152,15 @@ def run(case):
                 out["z"] = my_math.znormalizeData(list(v))
             return out
         return core.run_guarded(s)
+    if op == "znwin":
+        def zw():
+            return [float(x) for x in my_math.znormWindowFilter(list(case["dist"]), case["w"], case["pad"], case["zero"])]
+        return core.run_guarded(zw)
+    if op == "znspk":
+        def zs():
+            out = my_math.znormalizeSpeakerData([tuple(r) for r in case["rows"]], case["index"], case["zero"])
+            return [[float(x) for x in r] for r in out]
+        return core.run_guarded(zs)
     raise ValueError(op)
 
 
@@ -222,6 +242,10 @@ def py_checks(case, r):
             if 1 <= k < len(p) and not _close(float(lab), p[k] / p[k - 1]):
                 probs.append("label %r at %d is not the ratio %r" % (lab, k, p[k] / p[k - 1]))
         return probs
+    if op == "znwin":
+        return _check_znwin(case, r)
+    if op == "znspk":
+        return _check_znspk(case, r)
     if op != "stats":
         if "ok" not in r and op in ("median", "frows"):
             return ["%s raised %s" % (op, r.get("exc", r))]
@@ -272,6 +296,97 @@ def py_checks(case, r):
                 if (v[a] < v[b] and not z[a] < z[b]) or (v[a] == v[b] and z[a] != z[b]):
                     probs.append("rank order not preserved between positions %d and %d" % (a, b))
                     break
+    return probs
+
+
+def _zscore_center(win):
+    """(centre - mean) / sample deviation of a window, exactly; None when the deviation is 0 or undefined"""
+    w = [Fraction(x) for x in win]
+    if len(w) < 2:
+        return None
+    m = sum(w) / len(w)
+    var = sum((x - m) ** 2 for x in w) / (len(w) - 1)
+    if var == 0:
+        return None
+    return float(w[len(w) // 2] - m) / math.sqrt(float(var))
+
+
+def _windows(v, w, pad):
+    """for each position: the window the filter looks at (edge values repeated), or None where the element is left alone"""
+    o, n = w // 2, len(v)
+    out = []
+    for x in range(n):
+        if pad or (0 <= x - o and x + o < n):
+            out.append([v[min(max(x + k, 0), n - 1)] for k in range(-o, o + 1)])
+        else:
+            out.append(None)
+    return out
+
+
+def _check_znwin(case, r):
+    v, w = case["dist"], case["w"]
+    core_v = [x for x in v if x > 0.0] if case["zero"] else list(v)
+    wins = _windows(core_v, w, case["pad"])
+    exp_core = []
+    undefined = False
+    for x, win in zip(core_v, wins):
+        if win is None:
+            exp_core.append(float(x))
+        else:
+            z = _zscore_center(win)
+            if z is None:
+                undefined = True
+                break
+            exp_core.append(z)
+    if undefined:
+        # a window without spread has no z-score: raising is the only acceptable outcome besides skipping it
+        return [] if "ok" not in r else ["znormWindowFilter returned %r although a window has no spread" % (r["ok"],)]
+    if "ok" not in r:
+        return ["znormWindowFilter raised %s" % r.get("exc", r)]
+    exp = []
+    it = iter(exp_core)
+    for x in v:
+        exp.append(0.0 if (case["zero"] and not x > 0.0) else next(it))
+    got = r["ok"]
+    if len(got) != len(v):
+        return ["znormWindowFilter changed the length: %d -> %d" % (len(v), len(got))]
+    if not all(_close(a, b) for a, b in zip(got, exp)):
+        return ["znormWindowFilter = %r, the definition (z-score of each element within its window%s) gives %r"
+                % (got, ", zero values set aside" if case["zero"] else "", exp)]
+    return []
+
+
+def _check_znspk(case, r):
+    rows, idx = case["rows"], case["index"]
+    col = [row[idx] for row in rows]
+    spread = len(set(col)) > 1
+    if "ok" not in r:
+        return [] if not spread else ["znormalizeSpeakerData raised %s" % r.get("exc", r)]
+    got = r["ok"]
+    probs = []
+    if len(got) != len(rows):
+        return ["znormalizeSpeakerData changed the number of rows"]
+    for a, b in zip(rows, got):
+        if [x for k, x in enumerate(a) if k != idx] != [x for k, x in enumerate(b) if k != idx]:
+            probs.append("znormalizeSpeakerData changed another column or the order of rows: %r -> %r" % (a, b))
+            break
+    z = [b[idx] for b in got]
+    if not case["zero"]:
+        zf = [Fraction(x) for x in z]
+        m = sum(zf) / len(zf)
+        var = sum((x - m) ** 2 for x in zf) / (len(zf) - 1)
+        if abs(float(m)) > 1e-9 or abs(float(var) - 1.0) > 1e-9:
+            probs.append("z-normalised column has mean %r and sample variance %r" % (float(m), float(var)))
+        sel = list(range(len(col)))
+    else:
+        if any(zv != 0 for cv, zv in zip(col, z) if not cv > 0):
+            probs.append("a non-positive value did not stay 0 with zero filtering on")
+        sel = [k for k, cv in enumerate(col) if cv > 0]
+    order = sorted(sel, key=lambda i: (col[i], i))
+    for a, b in zip(order, order[1:]):
+        if (col[a] < col[b] and not z[a] < z[b]) or (col[a] == col[b] and z[a] != z[b]):
+            probs.append("rank order not preserved between rows %d and %d" % (a, b))
+            break
     return probs
 
 
